@@ -572,6 +572,16 @@ ALIAS_FOR = {
 def run_property(prop, mod, ctx, facts):
     """the rules of one property on one fact set: the property's own rule file, then ALIAS for the structs it relies on"""
     mod.run(ctx, facts)
+    inl = getattr(facts, "inliner", None)
+    if inl is not None:
+        ctx.extra.setdefault("preprocessing", {})[facts.config or "default"] = {
+            "new_private_helpers_inlined": {k: v for k, v in sorted(inl.inlined.items())},
+            "helper_calls_left_as_calls": {k: v for k, v in sorted(inl.kept.items())},
+            "absorbed_helpers": sorted(getattr(inl, "absorbed", ())),
+            "source_normalisations_applied": getattr(inl, "normalised", 0),
+            "shadowing_bindings_renamed": getattr(inl, "renamed", 0),
+            "inventory_size": len(inl.inv or ()),
+        }
     prefixes = [p_ for p_ in ALIAS_FOR.get(prop, []) if any(f.startswith(p_) for f in facts.fns)]
     if prefixes:
         alias_rule(ctx, facts, prefixes)
